@@ -42,7 +42,8 @@ Definition live_trace (es : list levent) : list lobs :=
 Fixpoint run_cmp_opt (s : lstate) (es : list (levent * option lobs)) (i : Z) : Z :=
   match es with
   | [] => 0
-  | (e, want) :: r => let s' := lstep s e in
+  | (e, want) :: r => if negb (wfe_b s e) then 5000 + i else     (* the trace itself is not well-formed: a reference is re-used *)
+                      let s' := lstep s e in
                       match want with
                       | Some w => if lobs_eqb (obs_state s') w then run_cmp_opt s' r (i + 1) else 1000 + i
                       | None => run_cmp_opt s' r (i + 1)
